@@ -41,6 +41,15 @@ var mapRangePatterns = []string{
 	"./roothash/api/...",
 	"./governance/api",
 	"./scheduler/api",
+	// further API packages the applications call into during block execution
+	"./vault/api/...",
+	"./keymanager/api/...",
+	"./keymanager/secrets/...",
+	"./keymanager/churp/...",
+	"./beacon/api/...",
+	"./upgrade/api/...",
+	"./consensus/api/...",
+	"./common/quantity/...",
 }
 
 type mrSite struct {
@@ -49,7 +58,7 @@ type mrSite struct {
 	line                 int
 }
 
-func isMapType(t types.Type) bool {
+func mrIsMapType(t types.Type) bool {
 	if t == nil {
 		return false
 	}
@@ -60,15 +69,15 @@ func isMapType(t types.Type) bool {
 		// type parameter: look at the type set's core type
 		if tp, ok := t.(*types.TypeParam); ok {
 			_ = tp
-			core := coreMap(u)
+			core := mrCoreMap(u)
 			return core
 		}
 	}
 	return false
 }
 
-// coreMap reports whether every term of the constraint interface is a map type.
-func coreMap(iface *types.Interface) bool {
+// mrCoreMap reports whether every term of the constraint interface is a map type.
+func mrCoreMap(iface *types.Interface) bool {
 	found := false
 	for i := 0; i < iface.NumEmbeddeds(); i++ {
 		switch e := iface.EmbeddedType(i).(type) {
@@ -83,7 +92,7 @@ func coreMap(iface *types.Interface) bool {
 			if _, ok := e.Underlying().(*types.Map); ok {
 				found = true
 			} else if in, ok := e.Underlying().(*types.Interface); ok {
-				if coreMap(in) {
+				if mrCoreMap(in) {
 					found = true
 				}
 			}
@@ -92,9 +101,9 @@ func coreMap(iface *types.Interface) bool {
 	return found
 }
 
-// mapsCall recognises maps.Keys / maps.Values / maps.All (std `maps` or golang.org/x/exp/maps)
+// mrMapsCall recognises maps.Keys / maps.Values / maps.All (std `maps` or golang.org/x/exp/maps)
 // applied to a map and returns the selector name.
-func mapsCall(info *types.Info, e ast.Expr) (string, ast.Expr, bool) {
+func mrMapsCall(info *types.Info, e ast.Expr) (string, ast.Expr, bool) {
 	call, ok := e.(*ast.CallExpr)
 	if !ok || len(call.Args) < 1 {
 		return "", nil, false
@@ -125,14 +134,14 @@ func mapsCall(info *types.Info, e ast.Expr) (string, ast.Expr, bool) {
 	}
 	switch sel.Sel.Name {
 	case "Keys", "Values", "All":
-		if isMapType(info.TypeOf(call.Args[0])) {
+		if mrIsMapType(info.TypeOf(call.Args[0])) {
 			return sel.Sel.Name, call.Args[0], true
 		}
 	}
 	return "", nil, false
 }
 
-func recvName(fd *ast.FuncDecl) string {
+func mrRecvName(fd *ast.FuncDecl) string {
 	if fd.Recv == nil || len(fd.Recv.List) == 0 {
 		return fd.Name.Name
 	}
@@ -195,7 +204,7 @@ func genMapRange(repo, out string, _ []string) error {
 			for _, d := range f.Decls {
 				fn := "<package-level>"
 				if fd, ok := d.(*ast.FuncDecl); ok {
-					fn = recvName(fd)
+					fn = mrRecvName(fd)
 				}
 				// calls that are the operand of a range statement are reported as mapsiter, not twice
 				rangedCalls := map[ast.Expr]bool{}
@@ -206,9 +215,9 @@ func genMapRange(repo, out string, _ []string) error {
 				ast.Inspect(d, func(nd ast.Node) bool {
 					switch s := nd.(type) {
 					case *ast.RangeStmt:
-						if isMapType(p.TypesInfo.TypeOf(s.X)) {
+						if mrIsMapType(p.TypesInfo.TypeOf(s.X)) {
 							add(s.Pos(), "range", s.X)
-						} else if name, arg, ok := mapsCall(p.TypesInfo, s.X); ok {
+						} else if name, arg, ok := mrMapsCall(p.TypesInfo, s.X); ok {
 							rangedCalls[s.X] = true
 							add(s.Pos(), "mapsiter."+name, arg)
 						}
@@ -216,7 +225,7 @@ func genMapRange(repo, out string, _ []string) error {
 						if rangedCalls[s] {
 							return true
 						}
-						if name, arg, ok := mapsCall(p.TypesInfo, s); ok {
+						if name, arg, ok := mrMapsCall(p.TypesInfo, s); ok {
 							add(s.Pos(), "mapscall."+name, arg)
 						}
 					}
